@@ -225,6 +225,10 @@ class Env:
             return
         if key in self.violated_keys and not canary:
             return
+        if len(self.violations) >= 3 and not canary:
+            # this instance already has three replayed violations: further obligations are listed, not decided
+            self.results.append(dict(key=key, verdict='not-searched', s=0, path='', canary=False))
+            return
         ctx = self.ctx
         e = SB._e(cond)
         if not canary:
